@@ -122,7 +122,7 @@ func runScenario(sc *Scenario, seed int64) (evs []loopEvent) {
 		}
 	}
 	sort.Strings(ids)
-	evs = append(evs, loopEvent{"ev": "Init", "args": loopEvent{"n": w.n, "fl": 0, "forkfrom": 1, "body": w.body, "w": w.w, "peers": ids,
+	evs = append(evs, loopEvent{"ev": "Init", "args": loopEvent{"memcap": 0, "n": w.n, "fl": 0, "forkfrom": 1, "body": w.body, "w": w.w, "peers": ids,
 		"origin": w.origin, "maxp": w.effMaxP(), "scripts": sc.Scripts, "loop": true}})
 	fakes := []*fakePeer{}
 	for _, id := range ids {
